@@ -18,7 +18,18 @@
 #include "replay.c"
 void h_svc_replay_cb (void (**f)(void)) { *f = (void (*)(void)) replay_purge; }
 #elif defined(H_SVC_GIDS)
+/* `timer svc gids <secs> <dostat> <mtime>`: with do_group_stat on, stat () of the group file reports this modification time
+ * (-1: the real one), so that the "group file unchanged since the last refresh" path of _gids_map_update runs as well */
+#include <sys/stat.h>
+long h_svc_group_mtime = -1;
+static int hx_group_stat (const char *path, struct stat *st) {
+    int rc = (stat) (path, st);
+    if (rc == 0 && h_svc_group_mtime >= 0) st->st_mtime = (time_t) h_svc_group_mtime;
+    return rc;
+}
+#define stat(p, s) hx_group_stat (p, s)
 #include "gids.c"
+#undef stat
 void h_svc_gids_cb (void (**f)(void)) { *f = (void (*)(void)) _gids_map_update; }
 #elif defined(H_SVC_RANDOM)
 #include "random.c"
@@ -224,6 +235,7 @@ static void cb (void *arg)
 /* ------------------------------------------------------------------ real services (optional TUs) */
 extern void h_svc_replay_cb (void (**f)(void)) __attribute__((weak));
 extern void h_svc_gids_cb (void (**f)(void)) __attribute__((weak));
+extern long h_svc_group_mtime __attribute__((weak));
 extern void h_svc_random_cb (void (**f)(void)) __attribute__((weak));
 extern void h_svc_random_start (int secs) __attribute__((weak));
 extern int h_svc_random_secs (void) __attribute__((weak));
@@ -365,7 +377,10 @@ int main (void)
         }
         else if (!strcmp (w[1], "svc") && n >= 3) {          /* real periodic services; no model counterpart */
             if (!strcmp (w[2], "replay") && replay_init) { replay_init (); wait_quiescent (); printf ("ok"); print_state (); }
-            else if (!strcmp (w[2], "gids") && n == 4 && gids_create) { the_gids = gids_create (atoi (w[3]), 0); wait_quiescent (); printf ("ok"); print_state (); }
+            else if (!strcmp (w[2], "gids") && (n == 4 || n == 6) && gids_create) {
+                if (n == 6 && &h_svc_group_mtime) h_svc_group_mtime = atol (w[5]);
+                the_gids = gids_create (atoi (w[3]), n == 6 ? atoi (w[4]) : 0); wait_quiescent (); printf ("ok"); print_state ();
+            }
             else if (!strcmp (w[2], "hup") && gids_update && the_gids) { gids_update (the_gids); wait_quiescent (); printf ("ok"); print_state (); }
             else if (!strcmp (w[2], "random") && n == 4 && h_svc_random_start) { h_svc_random_start (atoi (w[3])); wait_quiescent (); printf ("ok secs=%d", h_svc_random_secs ()); print_state (); }
             else { puts ("bad-op"); fflush (stdout); }
